@@ -61,6 +61,8 @@ impl<'a> Pp<'a> {
         // read txtpp file line by line
         loop {
             let line = self.get_next_line()?;
+            #[cfg(feature = "verif")]
+            let verif_input = line.clone();
 
             let (to_write, has_tail) = match self
                 .iterate_directive(line)
@@ -111,6 +113,8 @@ impl<'a> Pp<'a> {
                 }
             };
 
+            #[cfg(feature = "verif")]
+            let verif_wrote = to_write.clone();
             if self.pp_mode.is_execute() {
                 if let Some(x) = to_write {
                     if add_newline_before_next_output {
@@ -120,8 +124,12 @@ impl<'a> Pp<'a> {
                     self.context.write_output(&x)?;
                 }
             }
+            #[cfg(feature = "verif")]
+            self.verif_step(verif_input, verif_wrote, add_newline_before_next_output);
         }
 
+        #[cfg(feature = "verif")]
+        self.verif_step(None, None, add_newline_before_next_output);
         if let PpMode::CollectDeps(deps) = self.pp_mode {
             return Ok(PpResult::HasDeps(self.input_file, deps));
         }
@@ -207,6 +215,14 @@ impl<'a> Pp<'a> {
 
     /// Execute the directive and return the output from the directive
     fn execute_directive(&mut self, d: Directive) -> Result<Option<String>, PpError> {
+        #[cfg(feature = "verif")]
+        if let Some(c) = crate::verif::current() {
+            c.on_pp_exec(
+                &self.context.input_path,
+                &d.directive_type.to_string(),
+                &d.args,
+            );
+        }
         if let Mode::Clean = self.mode {
             // Ignore error if in clean mode
             let _ = self.execute_in_clean_mode(d);
@@ -224,6 +240,14 @@ impl<'a> Pp<'a> {
             }
             DirectiveType::Run => {
                 let command = d.args.join(" ");
+                #[cfg(feature = "verif")]
+                if let Some(c) = crate::verif::current() {
+                    c.on_run(
+                        &self.context.input_path,
+                        &command,
+                        &self.context.work_dir.as_path().display().to_string(),
+                    );
+                }
                 let output = self
                     .shell
                     .run(&command, &self.context.work_dir, &self.context.input_path)
@@ -417,4 +441,30 @@ pub enum PpResult {
     Ok(AbsPath),
     /// Dependency is found
     HasDeps(AbsPath, Vec<AbsPath>),
+}
+
+#[cfg(feature = "verif")]
+impl<'a> Pp<'a> {
+    /// Report the state after one iteration of the line loop
+    fn verif_step(&self, input: Option<String>, wrote: Option<String>, add_nl: bool) {
+        if let Some(c) = crate::verif::current() {
+            c.on_pp_step(
+                &self.context.input_path,
+                &crate::verif::PpStep {
+                    line: self.context.cur_line,
+                    input,
+                    wrote,
+                    add_nl,
+                    in_directive: self.cur_directive.is_some(),
+                    has_tail: self.execute_tail_line.is_some(),
+                    pp_mode: match self.pp_mode {
+                        PpMode::FirstPassExecute => "first",
+                        PpMode::Execute => "exec",
+                        PpMode::CollectDeps(_) => "collect",
+                    },
+                    has_tags: self.tag_state.has_tags(),
+                },
+            );
+        }
+    }
 }
